@@ -231,9 +231,14 @@ def op_hashmap(P):
 
 def op_vmstack(P):
     from pytoniq_core.tlb.vm_stack import VmStack, VmTuple
-    data = [P['cell'], P['cell'].begin_parse(), VmTuple([P['cell'], 5]), P['cell'].to_builder()]
+    data = [P['cell'], P['cell'].begin_parse(), VmTuple([P['cell'], 5]), P['cell'].to_builder(), VmTuple([7]), VmTuple([])]
     VmStack.serialize(data)
-    VmStack.deserialize(VmStack.serialize(data).begin_parse())
+    c = VmStack.serialize(data)
+    one = VmStack.deserialize(c.begin_parse())
+    two = VmStack.deserialize(c.begin_parse())
+    shape = lambda r: [len(x.list) if isinstance(x, VmTuple) else type(x).__name__ for x in r]
+    if shape(one) != shape(two) or shape(two) != ['Cell', 'Slice', 2, 'Builder', 1, 0]:
+        P['vm_mismatch'] = (shape(one), shape(two))
 
 
 OPS = {f.__name__[3:]: f for f in (op_slice_consume, op_slice_drain, op_slice_containers, op_slice_to_cell_builder, op_to_builder_store,
@@ -254,6 +259,7 @@ def h_pool(ctx, route, ops, twin=None):
         if twin == 'mutate' and i == 0:
             P['cell'].bits.append(1) if False else P['cell'].refs.append(P['other'])
         ctx.require(same_obs(observe(P['cell'], rev=(i % 2 == 0)), snap), f'the cell is unchanged after {name}')
+        ctx.require('vm_mismatch' not in P, 'parsing one stack cell twice gives the same values both times')
         for k in ('cell2', 'cell3', 'parent'):
             if k in P:
                 if k not in extra:
